@@ -10,6 +10,28 @@ use crate::kstub::*;
 use crate::fragment::{Arc, Circle, Line};
 use crate::Point;
 
+/// Exact specification of Line::is_touching on lattice lines: an end point of one line
+/// lies on the other (closed segments).  Cross and dot products of half-unit lattice
+/// values below 2^10 are exact in f32.  The quick-tier endorsement harnesses use it in
+/// place of the real is_touching (parry's Segment::contains_point: a projection with a
+/// division and a relative epsilon, which alone costs CBMC ~10 minutes per harness);
+/// that the real is_touching equals this specification on lattice lines is decided
+/// separately by o6_1_touching_exact (quick: axis-parallel lines) and
+/// o6_1_touching_exact_400 (thorough: all four directions, offsets to 400x200).
+fn on_closed_segment(a: Point, b: Point, p: Point) -> bool {
+    let cross = (b.x - a.x) * (p.y - a.y) - (b.y - a.y) * (p.x - a.x);
+    let dot = (p.x - a.x) * (b.x - a.x) + (p.y - a.y) * (b.y - a.y);
+    let len2 = (b.x - a.x) * (b.x - a.x) + (b.y - a.y) * (b.y - a.y);
+    cross == 0.0 && dot >= 0.0 && dot <= len2
+}
+
+fn spec_is_touching(l: &Line, o: &Line) -> bool {
+    on_closed_segment(l.start, l.end, o.start)
+        || on_closed_segment(l.start, l.end, o.end)
+        || on_closed_segment(o.start, o.end, l.start)
+        || on_closed_segment(o.start, o.end, l.end)
+}
+
 /// half-unit lattice in x (cell borders and cell centres), unit lattice in y
 fn hp(ix: i32, iy: i32) -> Point {
     Point::new(ix as f32 * 0.5, iy as f32)
@@ -81,16 +103,17 @@ fn rect_soundness_opt(max: i32, symbolic_order: bool, dashed: bool) {
     }
 }
 
-//@ harness: o5_1_rect_sound_small props=C05,C03 tier=quick obl=O5.1 timeout=800 mem=28 flags=--no-memory-safety-checks,--no-assertion-reach-checks
-//@ desc: any 2 horizontal + 2 vertical solid lattice lines (half-unit x, unit y, coordinates 0..4, positive length), slice order h,v,h,v: endorse_rect = Some(r) => the four lines are exactly the four sides of r (no ladder, no overhang, no T); bounded Vec; CBMC memory-safety instrumentation off (the property is functional)
+//@ harness: o5_1_rect_sound_small props=C05,C03 tier=quick obl=O5.1 timeout=800 mem=20 flags=--no-memory-safety-checks,--no-assertion-reach-checks
+//@ desc: any 2 horizontal + 2 vertical lattice lines (half-unit x, unit y, coordinates 0..5, positive length, symbolic dashedness), slice order h,v,h,v: endorse_rect = Some(r) => the four lines are exactly the four sides of r (no ladder, no overhang, no T); bounded Vec; Line::is_touching replaced by its exact lattice specification (equivalence decided by o6_1_touching_exact*); CBMC memory-safety instrumentation off
 //@ encodes: endorse::endorse_rect, endorse::is_rect, endorse::parallel_aabb_group, Line::is_aabb_parallel, Line::is_touching_aabb_perpendicular, Rect::new
 #[kani::proof]
 #[kani::unwind(10)]
 #[kani::stub(std::vec::Vec::new, crate::kstub::vec_new_cap)]
 #[kani::stub(std::vec::Vec::push, crate::kstub::push_nogrow)]
 #[kani::stub(std::io::_print, crate::kstub::noop_print)]
+#[kani::stub(crate::buffer::fragment_buffer::fragment::Line::is_touching, spec_is_touching)]
 fn o5_1_rect_sound_small() {
-    rect_soundness_opt(4, false, false);
+    rect_soundness_opt(5, false, true);
 }
 
 //@ harness: o5_1_rect_sound props=C05,C03 tier=thorough obl=O5.1 timeout=2400 mem=28 flags=--no-memory-safety-checks,--no-assertion-reach-checks
@@ -196,15 +219,16 @@ fn rect_complete_opt(max_w: i32, max_h: i32, max_x: i32, max_y: i32, orders: usi
 }
 
 //@ harness: o5_2_rect_complete_small props=C05,C03 tier=quick obl=O5.2 timeout=800 mem=28 flags=--no-memory-safety-checks,--no-assertion-reach-checks
-//@ desc: the 4 sides of every closed box with w in 1..4, h in 1..3 cells at origins <= (1,1), in 2 slice orders (top,left,bottom,right / left,top,right,bottom), any dashedness: endorse_rect returns exactly that rect, dashed iff a side is dashed, not filled, no radius; bounded Vec
+//@ desc: the 4 sides of every closed box with w in 1..6, h in 1..4 cells at origins <= (4,4), in 3 representative slice orders, any dashedness: endorse_rect returns exactly that rect, dashed iff a side is dashed, not filled, no radius; bounded Vec; Line::is_touching replaced by its exact lattice specification (equivalence decided by o6_1_touching_exact*)
 //@ encodes: endorse::endorse_rect, endorse::is_rect, endorse::parallel_aabb_group, Line::is_touching_aabb_perpendicular
 #[kani::proof]
 #[kani::unwind(10)]
 #[kani::stub(std::vec::Vec::new, crate::kstub::vec_new_cap)]
 #[kani::stub(std::vec::Vec::push, crate::kstub::push_nogrow)]
 #[kani::stub(std::io::_print, crate::kstub::noop_print)]
+#[kani::stub(crate::buffer::fragment_buffer::fragment::Line::is_touching, spec_is_touching)]
 fn o5_2_rect_complete_small() {
-    rect_complete_opt(4, 3, 1, 1, 2);
+    rect_complete_opt(6, 4, 4, 4, 3);
 }
 
 //@ harness: o5_2_rect_complete props=C05,C03 tier=thorough obl=O5.2 timeout=2400 mem=16
